@@ -360,7 +360,9 @@ func runC20(c *fw.Ctx) {
 		wg.Wait()
 		c.Count("concurrent_parse_rounds")
 	})
-	dir := filepath.Join(c.WorkDir, fmt.Sprintf("c20files.%d", c.Shard))
+	// private to this worker process: the passes (main, cov, 386) run shards with the same number at the same time
+	dir := filepath.Join(c.WorkDir, fmt.Sprintf("c20files.%d.%d", c.Shard, os.Getpid()))
+	defer os.RemoveAll(dir)
 	c.Cases("docs", c.N(3000, 2000000), false, func(i int, r *rng.R) {
 		root := spec.List
 		if r.Bool() {
